@@ -14,7 +14,7 @@ def programs(seed, n, syms=gen.SYMS, tids=None):
         allket = rng.random() < 0.3
         ixs = [gen.rand_index(rng, sym, dual=False if allket else None) for _ in range(rank)]
         x = gen.rand_array(rng, sym, rank, "fermionic", ixs=ixs, dtype=dtype, sparse=0.4, phases=0.4,
-                           oddpos=rng.randint(1, 9))
+                           oddpos=rng.randint(0, 9))      # (0 is a label like any other)
         x["fill"]["mod"] = 7
         if rng.random() < 0.3:
             x["oddpos_dual"] = True
